@@ -86,6 +86,10 @@ def run(ck: Checker):
     ck.rule('C14.IDX', 'after each rewrite the users index equals the inverse operand multiset')
     ck.rule('C14.BLK', 'helper gates are created by the checked emplace_gate and join exactly the blocks that contain the rewritten gate')
     ck.rule('C14.SNAP', 'into_bench iterates a snapshot of the gate map and converts every gate')
+    ck.rule('C14.HIST', 'into_bench called inside seeded histories of public mutations folded on instances of the repository\'s Circuit class (all gate types, constants with operands, blocks, use before definition): afterwards only bench-basis types remain, the circuit is well formed, inputs, outputs and truth table are unchanged (shared machinery with C02.HIST)')
+    from .. import history_fold
+    history_fold.fold_histories(ck, 'C14.HIST', only=('into_bench',))
+    ck.floor('C14.HIST', 1)
     mod, dnode, table = rw.find_convertors(ck)
     need = [t for t in GATE_NAMES if t not in semantics.BENCH_BASIS]
     missing = [t for t in need if t not in table]
@@ -102,8 +106,8 @@ def run(ck: Checker):
         len(body) == 1 and isinstance(body[0], ast.If) and norm(body[0].test) == f'{g}.gate_type in _convertors'
         and len(body[0].body) == 1 and norm(body[0].body[0]) == f'_convertors[{g}.gate_type]({g}, {c})' and not body[0].orelse
     )
-    ck.check(good, 'C14.REG', mod, cg, 'convert_gate dispatches on the gate\'s own type and passes (gate, circuit)',
-             f'convert_gate body is `{norm(body[0]) if body else ""}`', construct='convert_gate body')
+    ck.decide(True if good else None, 'C14.REG', mod, cg, 'convert_gate dispatches on the gate\'s own type and passes (gate, circuit)',
+              f'convert_gate body is `{norm(body[0]) if body else ""}`', construct='convert_gate body', covered_by='C14.HIST (into_bench folded inside histories)')
     ck.floor('C14.REG', 2)
 
     check_rewrites(ck, den, 'C14')
@@ -120,8 +124,8 @@ def run(ck: Checker):
             hmod, hname, _, _ = table[t]
             h = hmod.func(hname)
             ok = any(call_name(cl) == 'input_at_index' for cl in calls_in(h))
-            ck.check(ok, 'C14.TPL', hmod, h, f'{t} is rewritten over an existing input obtained through input_at_index (raises when there is none)',
-                     'constant converter does not obtain its helper input through input_at_index', construct=f'{hname} first input')
+            ck.decide(True if ok else None, 'C14.TPL', hmod, h, f'{t} is rewritten over an existing input obtained through input_at_index (raises when there is none)',
+                      'constant converter does not obtain its helper input through input_at_index', construct=f'{hname} first input', covered_by='C14.TPL fold of the constant converters (a circuit without inputs raises)')
 
     # SNAP
     circ = repo.mod('cirbo.core.circuit.circuit')
@@ -140,6 +144,6 @@ def run(ck: Checker):
             snap = True
         body_ok = len(lp.body) == 1 and norm(lp.body[0]) == f'convert_gate({norm(lp.target)}, self)'
         good = snap and body_ok
-    ck.check(good, 'C14.SNAP', circ, ib, 'into_bench converts every gate of a snapshot of the gate map',
-             'into_bench does not iterate a copy of self.gates calling convert_gate(gate, self) unconditionally', construct='into_bench loop')
+    ck.decide(True if good else None, 'C14.SNAP', circ, ib, 'into_bench converts every gate of a snapshot of the gate map',
+              'into_bench does not iterate a copy of self.gates calling convert_gate(gate, self) unconditionally', construct='into_bench loop', covered_by='C14.HIST (into_bench folded inside histories)')
     ck.assume('emplace_gate/_add_user/_remove_user behave as modelled in rewrites.FakeCircuit (their own shape is checked by C02.IDX)')
